@@ -285,6 +285,7 @@ class ZipfRules:
             # (declared order: uniform variate, begin, end) -- check the initial search interval
             ends = self.search_bounds(op, rec, approx, tobj)
             self.sink.emit('C06.RANGE', 'ok' if ends else 'violated', '%s::operator() searches positions [0, bins - 1]' % sn, self.loc(op), '')
+            self.search_rules(rec, sn, op, tobj, approx)
             if approx:
                 self.approx_rules(rec, r, sn, tab, tobj, upd)
 
@@ -406,6 +407,106 @@ class ZipfRules:
             if "'-'" not in txt:
                 ok_all = False
         return ok_all
+
+    def search_rules(self, rec, sn, op, tobj, approx):
+        """C06.SEARCH: direction rules of the bisection (necessary for the inverse-CDF clause at, below and
+        above a breakpoint).  With u the variate and P the probed position:
+            u <  CDF(P)  => only the upper cursor moves, to P or P-1
+            u >  CDF(P)  => only the lower cursor moves, to P+1
+            u == CDF(P)  => the lower cursor becomes P and the loop is left
+        after the loop: u > CDF(lower) => lower+1; the result is min + lower.
+        If the loop does not have this shape nothing is emitted (the clause stays undecided)."""
+        curs = None
+        for p in self.paths(op)[:1]:
+            v = [e['name'] for e in p.events if e['kind'] == 'decl' and e['storage'] == 'auto' and e['type'].get('bits') == 64 and e['type'].get('signed')]
+            if len(v) >= 2:
+                curs = (v[0], v[1])
+        if not curs:
+            return
+        lo, hi = curs
+        seen = {'lt': 0, 'gt': 0, 'eq': 0, 'post': 0}
+        bad = []
+
+        def cdf_probe(v):
+            # CDF(P): at(table, P) / GetCDF(P)
+            if isinstance(v, tuple) and v and v[0] == 'app' and v[1] in ('at', 'GetCDF', 'operator[]') and v[2]:
+                a = v[2][-1]
+                while isinstance(a, tuple) and a and a[0] in ('ext', 'trunc'):
+                    a = a[1]
+                return a
+            if isinstance(v, tuple) and v and v[0] == 's' and v[1].startswith(('ret:at', 'ret:GetCDF')):
+                return ('sym', v)
+            return None
+        for p in self.paths(op):
+            evs = p.events
+            in_loop = False
+            i = 0
+            n = len(evs)
+            last_head = max([k for k, e in enumerate(evs) if e['kind'] == 'loop_head'] or [-1])
+            while i < n:
+                e = evs[i]
+                if e['kind'] == 'cond' and isinstance(e['value'], tuple) and e['value'][0] == 'op' and e['value'][1] in ('<', '>'):
+                    P = cdf_probe(e['value'][3])
+                    if P is None or isinstance(P, tuple) and P and P[0] == 'sym':
+                        i += 1
+                        continue
+                    u = e['value'][2]
+                    # collect the decision of this probe: this cond and possibly the next one on the same CDF value
+                    dec = {e['value'][1]: e['outcome']}
+                    j = i + 1
+                    if j < n and evs[j]['kind'] == 'cond' and isinstance(evs[j]['value'], tuple) and evs[j]['value'][0] == 'op' and evs[j]['value'][1] in ('<', '>') \
+                            and evs[j]['value'][2] == u and evs[j]['value'][3] == e['value'][3]:
+                        dec[evs[j]['value'][1]] = evs[j]['outcome']
+                        j += 1
+                    # assignments to the cursors until the next loop head / cond on another probe
+                    k = j
+                    asg = []
+                    while k < n and evs[k]['kind'] not in ('loop_head', 'cond'):
+                        if evs[k]['kind'] == 'assign_local' and evs[k]['path'][2] in curs:
+                            asg.append(evs[k])
+                        k += 1
+                    inside = i < last_head or any(x['kind'] == 'loop_head' for x in evs[k:k + 1])
+                    post = i > last_head and dec.keys() == {'>'} and not any(x['kind'] == 'loop_head' for x in evs[i:])
+                    is_loop_probe = '<' in dec
+                    Pm1 = ('op', '-', P, C(1, 64), 64)
+                    Pp1 = ('op', '+', P, C(1, 64), 64)
+                    if is_loop_probe:
+                        if dec.get('<') is True:
+                            seen['lt'] += 1
+                            okk = len(asg) == 1 and asg[0]['path'][2] == hi and asg[0]['value'] in (Pm1, P)
+                            if not okk:
+                                bad.append(('u < CDF(P): the upper cursor must become P-1 (or P) and the lower cursor must not move', e, asg))
+                        elif dec.get('>') is True:
+                            seen['gt'] += 1
+                            okk = len(asg) == 1 and asg[0]['path'][2] == lo and asg[0]['value'] == Pp1
+                            if not okk:
+                                bad.append(('u > CDF(P): the lower cursor must become P+1 and the upper cursor must not move', e, asg))
+                        elif dec.get('>') is False:
+                            seen['eq'] += 1
+                            leaves = not any(x['kind'] == 'loop_head' for x in evs[k:])
+                            okk = len(asg) == 1 and asg[0]['path'][2] == lo and asg[0]['value'] == P and leaves
+                            if not okk:
+                                bad.append(('u == CDF(P): the lower cursor must become P and the search must stop', e, asg))
+                    elif '>' in dec and i > last_head:
+                        # post-loop correction on CDF(lower)
+                        seen['post'] += 1
+                        if dec['>']:
+                            okk = len(asg) == 1 and asg[0]['path'][2] == lo and (asg[0].get('how') == '++' or asg[0]['value'] == Pp1)
+                        else:
+                            okk = not asg
+                        if not okk:
+                            bad.append(('after the loop: u > CDF(lower) => lower+1, otherwise unchanged', e, asg))
+                    i = k
+                    continue
+                i += 1
+        if not (seen['lt'] and seen['gt'] and seen['eq']):
+            return    # shape not recognised: undecided, no obligation
+        key = '%s::operator() bisection moves the right cursor in the right direction' % sn
+        if bad:
+            why, e, asg = bad[0]
+            self.sink.bad('C06.SEARCH', key, self.loc(op, e.get('line')), '%s; found %s' % (why, [(a['path'][2], norm(a['value'])[:60]) for a in asg]))
+        else:
+            self.sink.ok('C06.SEARCH', key, self.loc(op), 'probes below / above / equal: %d / %d / %d, post-loop corrections: %d' % (seen['lt'], seen['gt'], seen['eq'], seen['post']))
 
     def approx_rules(self, rec, r, sn, tab, tobj, upd):
         k = self.exact_bins(rec)
